@@ -14,6 +14,7 @@ from pathlib import Path
 
 VERIF = Path(__file__).resolve().parent.parent
 PY = '/venv/bin/python'
+REPO = os.environ.get('GAMBIT_REPO', '/repo')   # where the change is applied for the check phase (a scratch worktree when set)
 
 
 def sh(cmd, **kw):
@@ -82,12 +83,12 @@ def finish(seed, pid, name, patch, demo, meta, out, run_all):
 		out.setdefault('checks', {}); out.setdefault('caught_by', []); out.setdefault('broken', [])
 		res = {}
 	elif out['confirmed'] or '--force' in sys.argv:
-		if sh('git -C /repo diff --quiet').returncode != 0:
-			print('/repo dirty; abort'); return 3
+		if sh(f'git -C {REPO} diff --quiet').returncode != 0:
+			print(f'{REPO} dirty; abort'); return 3
 		ids = [pid]
 		if run_all:
 			ids = [c['property_id'] for c in json.loads((VERIF / 'MANIFEST.json').read_text())['checks']]
-		sh(f'git -C /repo apply {patch}')
+		sh(f'git -C {REPO} apply {patch}')
 		try:
 			res = {}
 			for i in ids:
@@ -106,8 +107,8 @@ def finish(seed, pid, name, patch, demo, meta, out, run_all):
 						pass
 			out['checks'] = res
 		finally:
-			sh('git -C /repo checkout -- .')
-			sh('git -C /repo clean -fdq src')
+			sh(f'git -C {REPO} checkout -- .')
+			sh(f'git -C {REPO} clean -fdq src')
 		out['caught_by_own_check'] = res.get(pid, {}).get('exit') == 1
 		out['caught_by'] = [i for i, v in res.items() if v['exit'] == 1]
 		out['broken'] = [i for i, v in res.items() if v['exit'] == 2]
